@@ -297,6 +297,20 @@ class Gen:
                      "local.h.c02ro++", "local.h.c02bads += 1", "local.e1 = local.h.c02wo[2]",
                      "local.e6 = local\nlocal.e6.classname = 5", "local.classname = 5", "level.classname = \"x\"",
                      "self.sd = 1\nlocal.e1 = self.sd", "local.e5 = 5\nlocal.e5.f[1] = 2"]
+            # stores through a group of hosts (OP_LOAD_FIELD_VAR -> loadTopGroup): every member, a failing
+            # setter at the first / a middle / the last member, read-only fields, gone members, non-listeners
+            hs = ["local.h", "local.h2", "local.h3"]
+            arm = r.choice(hs)
+            pool += ["$grp.c02ok = %s" % self.expr(2), "$grp.c02maybe = %s" % self.expr(2), "$grp.f = %s" % self.expr(2),
+                     "%s.c02arm = 1\n$grp.c02maybe = %s\n%s.c02arm = 0" % (arm, self.expr(2), arm),
+                     "%s.c02arm = 1\n(local.h::local.h2::local.h3).c02maybe = 4\n%s.c02arm = 0" % (arm, arm),
+                     "%s.c02arm = 1\n(local.h3::local.h::local.h2).c02maybe = %s\nprintln $grp.size" % (arm, self.expr(2)),
+                     "(local.h::local.h2).c02maybe = %s" % self.expr(2), "(local.h::local.h2::local.h3).c02ro = 1",
+                     "$grp.c02bads = 1", "$grp.c02ro = 1", "(1::2::3).f = 1", "(local.h::5).c02ok = 1", "(NIL::local.h::NULL).c02ok = 2",
+                     "local.ga[1] = local.h\nlocal.ga[2] = local.h2\nlocal.ga.c02maybe = 1",
+                     "local.h2 remove\n$grp.c02maybe = 5\n(local.h::local.h2::local.h3).c02ok = 6",
+                     "$grp.c02maybe += 1", "$grp.f[1] = 2", "local.e1 = $grp.c02ok", "$grp.c02wo = (1::2)"]
+            self.feat.add("group-store-pool")
         if self.defects:
             pool += ["self.sd = 1\nlocal.e1 = self.sd",              # OP_LOAD_STORE_SELF_VAR, self NULL
                      "local.e5 = 5\nlocal.e5.f[1] = 2",               # OP_STORE_FIELD_REF on a non-listener
@@ -457,9 +471,10 @@ class Gen:
         allthreads = list(self.threads)
         lines = self.thread_body("main", 0, n)
         if self.host:
-            lines[1:1] = ["  local.h = spawn C02Host"]
+            lines[1:1] = ["  local.h = spawn C02Host targetname grp", "  local.h2 = spawn C02Host targetname grp"] + \
+                         (["  local.h3 = spawn C02Host targetname grp"] if r.random() < 0.6 else [])
             if allthreads and r.random() < 0.6:
-                lines[2:2] = ["  local.h thread %s %s" % (allthreads[0][0], " ".join("1" for _ in range(allthreads[0][1])))]
+                lines[3:3] = ["  local.h thread %s %s" % (allthreads[0][0], " ".join("1" for _ in range(allthreads[0][1])))]
                 self.feat.add("thread-with-self")
         for i, (name, np_) in enumerate(allthreads):
             self.threads = allthreads[i + 1:]           # a thread only starts later ones: no unbounded recursion
@@ -700,6 +715,13 @@ def check(res, tier, seed):
     # which table entries differ from the model (all must be in the allowed list: theorem table_matches_decode)
     rc, o, e = vlib.sh([vlib.ocaml_driver(UNIT), "tablecheck"], timeout=60)
     names = {n: en for n, en, *_ in table["ops"]}
+    baked = [l.split()[1] for l in o.splitlines() if l.startswith("control ")]
+    want = ",".join(str(n) for _, n in table["control"] if n)
+    if baked != [want]:
+        # the extracted verifier was built from another Generated.v than the one of this binary
+        # (two checks running at once on different trees): not a statement about /repo
+        raise vlib.BuildError("coq/C02/Generated.v and the extracted verifier are out of step with the harness binary "
+                              "(control events %s vs %s): concurrent ./check C02 on another tree? re-run" % (baked, want))
     res.cov["table_entries_differing_from_interpreter"] = sorted(names.get(int(l.split()[1]), l.split()[1]) for l in o.splitlines() if l.startswith("mismatch"))
 
     progs = gen_programs(tier, seed, defects_on())
@@ -737,6 +759,10 @@ def check(res, tier, seed):
     res.cov["opcodes_reached"] = sorted(names.get(x, str(x)) for x in ops_seen)
     res.cov["opcodes_never_reached"] = sorted(en for n, en, *_ in table["ops"] if n not in ops_seen)
     res.cov["features_in_verified_programs"] = dict(sorted(feats.items()))
+    isgs = lambda l: ("$grp." in l and "=" in l and not l.strip().startswith("local.e1")) or ").c02" in l or "local.ga.c02" in l
+    gsp = [p for p in progs if recs.get(p.id, {}).get("status") == "ok" and any(isgs(l) for l in p.lines)]
+    res.cov["group_stores"] = {"programs_verified_and_run": len(gsp), "statements": sum(sum(1 for l in p.lines if isgs(l)) for p in gsp),
+                               "programs_arming_a_member": sum(1 for p in gsp if any("c02arm = 1" in l for l in p.lines))}
     res.cov["max_height_seen"] = max([r.get("maxht", 0) for r in recs.values() if r.get("status") == "ok"] or [0])
     res.cov["samples"] += [{"origin": p.origin, "source": p.lines[:40]} for p in (progs[2:3] + progs[len(FIXED) + 5:len(FIXED) + 6] + progs[-1:])]
 
